@@ -795,6 +795,8 @@ func (c *compiler) VisitCharLit(e *ast.CharLit) ast.VisitResult {
 // so we need to do some work here
 func (c *compiler) VisitStringLit(e *ast.StringLit) ast.VisitResult {
 	constStr := c.mod.NewGlobalDef("", irutil.NewCString(e.Value))
+	// the constant belongs to this module alone, separately compiled modules must not clash on its generated name
+	constStr.Linkage = enum.LinkagePrivate
 	// call the ddp-runtime function to create the ddpstring
 	c.commentNode(c.cbb, e, constStr.Name())
 	dest := c.NewAlloca(c.ddpstring.typ)
